@@ -26,7 +26,12 @@ type vhIn struct {
 	w, h   []float64 // configured size per node (what C02 expects in the output)
 	ns, ls float64
 	opts   []Option
+	p1, p2 int
 	p4, p5 int
+	bk, sz int
+	fw, fh float64
+	listed []bool
+	sizes  map[string]graph.Size
 	virt   bool
 }
 
@@ -50,39 +55,55 @@ func vhShape() *vhIn {
 	for i := 0; i < in.n; i++ {
 		in.ids = append(in.ids, vhID(i))
 	}
-	for i := 0; i < in.m; i++ {
-		in.src = append(in.src, []string{in.ids[in.f[i]], in.ids[in.t[i]]})
-	}
+	in.build()
 	return in
 }
 
-// vhOptions builds the option list from the cube constants:
+// vhAlphabet: adversarial identifiers (helper-node names of phase 3 "V<n>" and of the network
+// simplex positioner "NE<i>", the empty string, non-ASCII, a plain name).
+var vhAlphabet = []string{"a", "V1", "V2", "V3", "NE0", "NE1", "NE2", "NE3", "", "\u00fc\u221e", "n0", "n1"}
+
+// vhRename returns a copy of the input whose node ids are an injective, solver-chosen selection
+// from vhAlphabet.
+func vhRename(in *vhIn) *vhIn {
+	out := &vhIn{}
+	*out = *in
+	out.ids = nil
+	var pick []int
+	for i := 0; i < in.n; i++ {
+		k := vhInt("id", 0, len(vhAlphabet)-1)
+		for _, p := range pick {
+			vhAssume(p != k)
+		}
+		pick = append(pick, k)
+		out.ids = append(out.ids, vhAlphabet[k])
+	}
+	out.build()
+	return out
+}
+
+func (in *vhIn) build() {
+	in.src = nil
+	for i := 0; i < in.m; i++ {
+		in.src = append(in.src, []string{in.ids[in.f[i]], in.ids[in.t[i]]})
+	}
+}
+
+// vhOptions draws the symbolic inputs of this cube and builds the option list from the cube constants:
 //
 //	P1: 0 greedy, 1 depth-first, 2 greedy with random picks     P2: 0 network simplex, 1 longest path
 //	P4: phase4.Alg value (1 VAlign 2 B&K 3 NS 4 SinkColoring 5 PackRight)   BK: forced B&K layout (-1 none)
 //	P5: phase5.Alg value (0 none 1 straight 2 polyline 3 ortho 4 splines)
-//	SZ: 0 no sizes, 1 fixed size, 2 per-node size for every node, 3 fixed + per-node for even nodes
+//	SZ: 0 no sizes, 1 fixed size, 2 per-node size for every node, 3 fixed + per-node for even nodes,
+//	    4 per-node widths with zero heights
 //	VIRT: 1 = WithOutputVirtualNodes(true)     INTSZ: 1 = sizes/spacings are integers (NS positioner)
+//	NSFIX / LSFIX >= 0: concrete NodeSpacing / LayerSpacing instead of symbolic ones
 func vhOptions(in *vhIn, minLS float64) {
-	p1, p2 := vhConst("P1"), vhConst("P2")
+	in.p1, in.p2 = vhConst("P1"), vhConst("P2")
 	in.p4, in.p5 = vhConst("P4"), vhConst("P5")
-	switch p1 {
-	case 0:
-		in.opts = append(in.opts, WithCycleBreaking(phase1.Greedy))
-	case 1:
-		in.opts = append(in.opts, WithCycleBreaking(phase1.DepthFirst))
-	case 2:
-		in.opts = append(in.opts, WithCycleBreaking(phase1.Greedy), WithNonDeterministicGreedyCycleBreaker())
-	}
-	if p2 == 1 {
-		in.opts = append(in.opts, WithLayering(phase2.LongestPath))
-	} else {
-		in.opts = append(in.opts, WithLayering(phase2.NetworkSimplex))
-	}
-	in.opts = append(in.opts, WithPositioning(phase4.Alg(in.p4)), WithEdgeRouting(phase5.Alg(in.p5)))
-	if bk := vhConst("BK"); bk >= 0 {
-		in.opts = append(in.opts, WithBrandesKoepfLayout(bk))
-	}
+	in.bk = vhConst("BK")
+	in.sz = vhConst("SZ")
+	in.virt = vhConst("VIRT") == 1
 	intsz := vhConst("INTSZ") == 1
 	real := func(name string, lo float64) float64 {
 		if intsz {
@@ -92,40 +113,75 @@ func vhOptions(in *vhIn, minLS float64) {
 	}
 	in.w = make([]float64, in.n)
 	in.h = make([]float64, in.n)
-	switch sz := vhConst("SZ"); sz {
+	in.listed = make([]bool, in.n)
+	switch in.sz {
 	case 1:
-		w, h := real("fw", 0), real("fh", 0)
-		in.opts = append(in.opts, WithNodeFixedSize(w, h))
+		in.fw, in.fh = real("fw", 0), real("fh", 0)
 		for i := range in.w {
-			in.w[i], in.h[i] = w, h
+			in.w[i], in.h[i] = in.fw, in.fh
+		}
+	case 4:
+		for i := 0; i < in.n; i++ {
+			in.w[i] = real("w", 0)
+			in.listed[i] = true
 		}
 	case 2, 3:
-		var fw, fh float64
-		if sz == 3 {
-			fw, fh = real("fw", 0), real("fh", 0)
-			in.opts = append(in.opts, WithNodeFixedSize(fw, fh))
+		if in.sz == 3 {
+			in.fw, in.fh = real("fw", 0), real("fh", 0)
 		}
-		sizes := map[string]graph.Size{}
 		for i := 0; i < in.n; i++ {
-			in.w[i], in.h[i] = fw, fh
-			if sz == 2 || i%2 == 0 {
-				w, h := real("w", 0), real("h", 0)
-				sizes[in.ids[i]] = graph.Size{W: w, H: h}
-				in.w[i], in.h[i] = w, h
+			in.w[i], in.h[i] = in.fw, in.fh
+			if in.sz == 2 || i%2 == 0 {
+				in.w[i], in.h[i] = real("w", 0), real("h", 0)
+				in.listed[i] = true
 			}
-		}
-		if sz == 3 {
-			// per-node overrides fixed regardless of option order? The docs say per-node wins.
-			in.opts = append(in.opts, WithNodeSize(sizes))
-		} else {
-			in.opts = append(in.opts, WithNodeSize(sizes))
 		}
 	}
 	in.ns = real("ns", 0)
 	in.ls = real("ls", minLS)
+	if v := vhConst("NSFIX"); v >= 0 {
+		in.ns = float64(v)
+	}
+	if v := vhConst("LSFIX"); v >= 0 {
+		in.ls = float64(v)
+	}
+	in.buildOpts()
+}
+
+// buildOpts (re)creates the option list from the recorded values (used again for renamed / scaled twins).
+func (in *vhIn) buildOpts() {
+	in.opts = nil
+	switch in.p1 {
+	case 0:
+		in.opts = append(in.opts, WithCycleBreaking(phase1.Greedy))
+	case 1:
+		in.opts = append(in.opts, WithCycleBreaking(phase1.DepthFirst))
+	case 2:
+		in.opts = append(in.opts, WithCycleBreaking(phase1.Greedy), WithNonDeterministicGreedyCycleBreaker())
+	}
+	if in.p2 == 1 {
+		in.opts = append(in.opts, WithLayering(phase2.LongestPath))
+	} else {
+		in.opts = append(in.opts, WithLayering(phase2.NetworkSimplex))
+	}
+	in.opts = append(in.opts, WithPositioning(phase4.Alg(in.p4)), WithEdgeRouting(phase5.Alg(in.p5)))
+	if in.bk >= 0 {
+		in.opts = append(in.opts, WithBrandesKoepfLayout(in.bk))
+	}
+	if in.sz == 1 || in.sz == 3 {
+		in.opts = append(in.opts, WithNodeFixedSize(in.fw, in.fh))
+	}
+	if in.sz >= 2 {
+		in.sizes = map[string]graph.Size{}
+		for i := 0; i < in.n; i++ {
+			if in.listed[i] {
+				in.sizes[in.ids[i]] = graph.Size{W: in.w[i], H: in.h[i]}
+			}
+		}
+		in.opts = append(in.opts, WithNodeSize(in.sizes))
+	}
 	in.opts = append(in.opts, WithNodeSpacing(in.ns), WithLayerSpacing(in.ls))
-	if vhConst("VIRT") == 1 {
-		in.virt = true
+	if in.virt {
 		in.opts = append(in.opts, WithOutputVirtualNodes(true))
 	}
 }
